@@ -287,12 +287,56 @@ class Check(Property):
             v.append(f"C12 shared-context probe raised {type(exc).__name__}: {exc}")
         return v
 
+    def failing_activation_probe(self):
+        """activations that fail for a reason other than an unknown name or an invalid redefinition: a parameter value that
+        cannot be hashed (the stack of a context with redefinitions is keyed by its parameters).  A failed activation changes
+        nothing."""
+        import pint
+        v = []
+        try:
+            u = regs.fresh("float")
+            c = pint.Context("c12bad")
+            c.add_transformation("[length]", "[time]", lambda ureg, x, n=1: x / ureg.Quantity(n, "m/s"))
+            c.redefine("pound = 0.5 kg")
+            u.add_context(c)
+            outer = pint.Context("c12outer")
+            outer.add_transformation("[mass]", "[time]", lambda ureg, x: x / ureg.Quantity(1, "kg/s"))
+            u.add_context(outer)
+            for pre in ((), ("c12outer",)):
+                if pre:
+                    u.enable_contexts(*pre)
+                names0 = [x.name for x in u._active_ctx.contexts]
+                lb0 = u.Quantity(1.0, "pound").to("kg").magnitude
+                for bad in ([1, 2], {"a": 1}):
+                    try:
+                        u.enable_contexts("c12bad", n=bad)
+                        u.disable_contexts(1)
+                        continue                      # accepted: nothing to judge
+                    except Exception:  # noqa: BLE001
+                        pass
+                    names1 = [x.name for x in u._active_ctx.contexts]
+                    lb1 = u.Quantity(1.0, "pound").to("kg").magnitude
+                    try:
+                        u.Quantity(1.0, "m").to("s")
+                        conv = "1 m converts to seconds"
+                    except Exception:  # noqa: BLE001
+                        conv = None
+                    if names1 != names0 or lb1 != lb0 or conv:
+                        v.append(f"C12 a failed activation (parameter n={bad!r} cannot be hashed) changed the registry: active contexts "
+                                 f"{names0} -> {names1}, 1 pound = {lb0} -> {lb1} kg, {conv or 'no length -> time rule usable'}")
+                        u.disable_contexts(len(names1) - len(names0))
+                u.disable_contexts()
+        except Exception as exc:  # noqa: BLE001
+            v.append(f"C12 failing-activation probe raised {type(exc).__name__}: {exc}")
+        return v
+
     def oracle(self, c):
         import pint
         v = []
         if not getattr(self, "_shared_probe_done", False):
             self._shared_probe_done = True
             v += self.shared_context_probe()
+            v += self.failing_activation_probe()
         u = self.runner().u
         logging.disable(logging.CRITICAL)
         added = []
